@@ -197,6 +197,28 @@ def body():
                     chk.violation("threads:bitwise", "result %d differs between thread counts (%d threads, repetition %d): max diff %.3g" % (k, n, rep, np.abs(a - b).max()), {"threads": n})
     numba.set_num_threads(maxthreads)
     chk.cov["thread_counts"] = counts
+    # ---- (D) unbounded companion: the TLAPS proof that the greedy colouring step keeps the colouring valid for every element set and
+    # every symmetric conflict relation (spec/proofs/ColouringProof.tla); a proof that no longer checks is a machinery failure
+    import shutil
+    import subprocess
+    import tempfile
+
+    if shutil.which("tlapm"):
+        d = tempfile.mkdtemp(prefix="tlaps_")
+        try:
+            shutil.copy(os.path.join(common.SPEC, "proofs", "ColouringProof.tla"), d)
+            pr = subprocess.run(["tlapm", "ColouringProof.tla"], cwd=d, capture_output=True, text=True, timeout=900)
+            out = pr.stdout + pr.stderr
+            import re
+
+            m = re.search(r"All (\d+) obligations? proved", out)
+            if not m:
+                raise common.MachineryError("TLAPS proof ColouringProof.tla does not check: %s" % out[-300:])
+            chk.part("tlaps_colouring_proof", obligations=int(m.group(1)), theorem="Spec => []Inv (valid colouring) for arbitrary Elements and symmetric Conflict", proved=True)
+        finally:
+            shutil.rmtree(d, ignore_errors=True)
+    else:
+        chk.part("tlaps_colouring_proof", proved=False, reason="tlapm not on PATH")
     chk.cov["rule"] = ("(A) one colour-map check per space of the SpaceModel universe; (B) one TLC exploration of all interleavings per window of <= 3 "
                        "iterations of each recorded launch; (C) bitwise comparison across thread counts; non-trivial = >= 2 support elements / >= 2 threads")
     return chk.finish()
